@@ -49,6 +49,9 @@ VARIANTS = {
     # atomics differential, fault layers without hooks
     'at-fiber': dict(std='20', fault=2, coro=0, st=0, fst=0, asan=False, hb=False, defs=[], opt='-O1'),
     'at-thread': dict(std='20', fault=1, coro=0, st=0, fst=0, asan=False, hb=False, defs=[], opt='-O1'),
+    # upstream's own unit tests compiled by hand (guard for "fix:" commits, not evidence)
+    'up-fiber': dict(std='20', fault=2, coro=1, st=1, fst=1, asan=False, hb=False, defs=['YACLIB_LOG_DEBUG', 'YACLIB_CI_SLOWDOWN=1'], opt='-O1'),
+    'up-off': dict(std='20', fault=0, coro=1, st=1, fst=1, asan=False, hb=False, defs=['YACLIB_LOG_DEBUG', 'YACLIB_CI_SLOWDOWN=1'], opt='-O1'),
     # fiber layer with hooks compiled in but the plain fiber atomic (rng-level exploration, C17/C18)
     'fib-asan': dict(std='20', fault=2, coro=1, st=1, fst=1, asan=True, hb=False,
                      defs=['YACLIB_VERIF', 'YACLIB_LOG_DEBUG'], opt='-O1'),
@@ -65,6 +68,7 @@ HARNESSES = {
     'strand': dict(src='harness/strand.cpp', kind='mc'),
     'when_any': dict(src='harness/when_any.cpp', kind='mc'),
     'timed_wait': dict(src='harness/timed_wait.cpp', kind='mc'),
+    'std_prims': dict(src='harness/std_prims.cpp', kind='mc'),
     'pool': dict(src='harness/pool.cpp', kind='mc'),
 }
 
@@ -385,6 +389,23 @@ CHECKS = {
                      'nothing else can run, which covers every relative position of the deadline',
                      'sequentially consistent executions; preemption bound as stated'],
         technique='stateless model checking: exhaustive preemption- and timer-bounded schedule enumeration of the implementation',
+    ),
+    'C18': dict(
+        title='yaclib_std locks, condition variables and threads behave like std under fibers',
+        level_text='EVERY injection point of the fault layer is a decision (not only synchronisation events), the '
+                   'SharedMutex::unlock coin and every wake-up choice are enumerated; within P<=3 quick / all interleavings thorough '
+                   '(three fibers or two cv waiters: P<=2 / P<=3), timer T<=1: two fibers x every sequence of <= 2 sections (thorough: '
+                   'all pairs; quick: at most one fiber with two) and three fibers x one section over each of mutex, timed_mutex, '
+                   'recursive_mutex, recursive_timed_mutex, shared_mutex, shared_timed_mutex (lock, try_lock, try_lock_for, the shared '
+                   'forms, nested re-locking of recursive kinds); condition_variable wait / wait(pred) / wait_for / wait_until x 1-2 '
+                   'waiters x notify_one/all x inside/outside the lock; thread spawn/join, sleep_for, thread-local pointers; checked '
+                   'against a reference model of the std contracts (inner/outer holder intervals, virtual-clock deadlines, deadlock = lost wake-up)',
+        budget=dict(quick=240, thorough=2400),
+        runs=[mc('std_prims', 'mc-asan', quick=dict(P=3, T=1), thorough=dict(P=99, T=1))],
+        assumptions=['only operation sequences that respect the std preconditions are generated',
+                     'virtual time: a timed wait expires only by explorer choice or when nothing else can run',
+                     'condition_variable_any, call_once, semaphores, latch, barrier are not implemented by the FIBER backend (upstream TODO) and not covered'],
+        technique='stateless model checking with every fault-injection point a scheduling decision, against a reference model',
     ),
     'C19': dict(
         title='yaclib_std::atomic computes what std::atomic computes',
@@ -721,6 +742,51 @@ def replay(path):
     return subprocess.run([binp, '--replay', path], env=env).returncode
 
 
+def upstream_tests(variants=('up-fiber', 'up-off'), gfilter=None):
+    """Compiles upstream's unit tests (incl. coroutine and fiber tests the baseline build never compiles) by hand
+    against the working tree in FIBER+CORO and OFF+CORO and runs them.  A guard for repairs, not evidence."""
+    rc_all = 0
+    for vname in variants:
+        v = VARIANTS[vname]
+        gen_config(vname, v)
+        vdir = os.path.join(BUILD, vname)
+        srcs = [os.path.join(REPO, 'test/test.cpp')]
+        for d in ('algo', 'async', 'coro', 'exe', 'runtime', 'util') + (('fault',) if v['fault'] == 2 else ()):
+            srcs += sorted(glob.glob(os.path.join(REPO, 'test/unit', d, '*.cpp')))
+        srcs = [x for x in srcs if not x.endswith('dealloc_order.cpp')]
+        lines = ['cxx = g++', 'rule cxx', '  command = $cxx $flags -MD -MF $out.d -c $in -o $out', '  depfile = $out.d', '  deps = gcc',
+                 'rule link', '  command = $cxx $in $ldflags -o $out', '']
+        objs = []
+        fl = flags(vname, v, False) + ['-I' + os.path.join(REPO, 'test')]
+        for src in lib_sources(v) + srcs:
+            obj = os.path.join(vdir, 'up', os.path.relpath(src, REPO).replace('/', '_') + '.o')
+            lines += ['build %s: cxx %s' % (ninja_escape(obj), ninja_escape(src)), '  flags = ' + ' '.join(fl), '']
+            objs.append(obj)
+        binp = os.path.join(vdir, 'bin', 'upstream_tests')
+        lines += ['build %s: link %s' % (ninja_escape(binp), ' '.join(ninja_escape(o) for o in objs)),
+                  '  ldflags = -pthread -lgtest', '']
+        nf = os.path.join(vdir, 'up.ninja')
+        os.makedirs(vdir, exist_ok=True)
+        open(nf, 'w').write('\n'.join(lines) + '\n')
+        r = subprocess.run(['ninja', '-f', nf, '-j', str(NPROC), binp], stdout=subprocess.PIPE, stderr=subprocess.STDOUT, text=True)
+        if r.returncode != 0:
+            print(r.stdout[-4000:])
+            print('upstream-tests %s: BUILD FAILED' % vname)
+            rc_all = 1
+            continue
+        cmd = [binp]
+        if gfilter:
+            cmd.append('--gtest_filter=' + gfilter)
+        t0 = time.time()
+        r = subprocess.run(cmd, stdout=subprocess.PIPE, stderr=subprocess.STDOUT, text=True)
+        tail = [l for l in r.stdout.split('\n') if l.startswith('[  PASSED') or l.startswith('[  FAILED') or 'tests ran' in l]
+        print('upstream-tests %s: rc=%d %.0fs %s' % (vname, r.returncode, time.time() - t0, ' | '.join(tail[:8])))
+        if r.returncode != 0:
+            rc_all = 1
+            print(r.stdout[-3000:])
+    return rc_all
+
+
 def main():
     ap = argparse.ArgumentParser()
     sub = ap.add_subparsers(dest='cmd')
@@ -733,6 +799,9 @@ def main():
     r.add_argument('file')
     sub.add_parser('setup')
     sub.add_parser('manifest')
+    u = sub.add_parser('upstream-tests')
+    u.add_argument('--filter', default=None)
+    u.add_argument('--variant', default=None)
     a = ap.parse_args()
     if a.cmd == 'build':
         tg = []
@@ -748,6 +817,8 @@ def main():
         sys.exit(replay(a.file))
     elif a.cmd == 'manifest':
         write_manifest()
+    elif a.cmd == 'upstream-tests':
+        sys.exit(upstream_tests((a.variant,) if a.variant else ('up-fiber', 'up-off'), a.filter))
     elif a.cmd == 'setup':
         tg = sorted({(r['harness'], r['variant']) for spec in CHECKS.values() for r in spec['runs']})
         t0 = time.time()
